@@ -32,13 +32,13 @@ def base_cfg(kind, variant, opt, tracked):
            "data_key": 11 + variant, "tracked": tracked,
            "net": {"type": "mlp", "width": 3, "act": "tanh", "key": variant} if variant % 2 else
            {"type": "field", "field": {"din": d + (1 if kind == "ode" else 0), "m": 1, "post": "id", "mono": None, "lin": None,
-                                       "gauss": None, "quad": [[[q(-0.5, 0.5)] * (d + (1 if kind == "ode" else 0))] *
-                                                               (d + (1 if kind == "ode" else 0))],
-                                       "sin": [[[q(0.5, 1.5), q(-1, 1), [q(0.5, 1.5)] * (d + (1 if kind == "ode" else 0))]]]}},
+                                       "gauss": None, "quad": [[[q(-0.5, 0.5)] * (d + (0 if kind == "statio" else 1))] *
+                                                               (d + (0 if kind == "statio" else 1))],
+                                       "sin": [[[q(0.5, 1.5), q(-1, 1), [q(0.5, 1.5)] * (d + (0 if kind == "statio" else 1))]]]}},
            "coef": [q(0.5, 1), q(0.5, 1), q(-1, 1), q(-1, 1), q(-0.5, 0.5), q(-1, 1), q(0.5, 1), q(0.5, 1)]}
-    if kind == "ode":
+    if kind in ("ode", "nonstatio"):
         cfg.update(nt=5, bt=2)
-    else:
+    if kind != "ode":
         cfg.update(n=5, bx=2, border=bool(variant % 2), fn=2, bb=1)
     return cfg
 
